@@ -272,6 +272,12 @@ def run(chk):
                           "and the declarations)\ndocument: %s\nqueries in this order on one document: %s\nimplementation: %s\n"
                           "expected:       %s\n" % (ORDER_DOC, o, got, exp_f))
             mfail.append((ORDER_DOC, got, exp_f, ""))
+    # a value WRITTEN through the DOM for a name that a default supplied so far replaces the default (it is then the written value
+    # that is reported, flagged as specified)
+    from props import domchecks as DC
+    for dd_, ops_, i_, why_, det_ in DC.default_write_failures(chk):
+        chk.violation("defaultwrite_%s" % lib.enc(ops_[0])[-40:], "property C11: %s\ndocument: %s\ncall: %s\n%s\n" % (why_, dd_, ops_[0], det_))
+        mfail.append((dd_, det_, "a specified attribute d with the written value", ""))
     chk.cov["systematic_cases"] = n_sys
     chk.cov["input_distribution"] = hist
     chk.cov["disagreements_checked"] = len(tdis)
